@@ -36,7 +36,7 @@ use sage_core::ml::gauss::Gauss;
 use sage_core::ml::linear_discriminant::{score_psms, LinearDiscriminantAnalysis};
 use sage_core::ml::matrix::Matrix;
 
-pub const OPS: &[&str] = &["gauss", "lda", "scorepsms", "ldabig", "scorepsmst", "fdrrun"];
+pub const OPS: &[&str] = &["gauss", "lda", "scorepsms", "ldabig", "scorepsmst", "fdrrun", "scorepsmstol"];
 pub const INFO: Info = Info {
     rule: "gauss: n<=6 (quick) / 10 (thorough) systems with A = random SPD (G'G + dI), nearly singular PSD \
            (G'G, rank r<n, float-rounded), exactly singular PSD (small integers), diagonal / zero rows, \
@@ -53,6 +53,7 @@ pub const INFO: Info = Info {
            fdrrun: THE REAL Runner::run on tiny target-only searches (LDA not fitted => heuristic fallback of Runner::spectrum_fdr): 2..5 families of isobaric peptides \
            (permutations of one composition, 1..5 members) with full / half / 3..5-peak b,y ladders plus noise, so that poisson ranges from about -0.3 to below -10; every 5th case with decoys; a single-PSM search; predict_rt alternates. Searches WITH decoys and both classes reported: 3..7 target spectra (y-only / b+y / short y ladders) plus 1 (fit fails: zero-variance decoy class) or 2..3 (fit may succeed) spectra built from DECOY sequences with b ions only, each with predict_rt = true and false: \
            poisson order and score order disagree around the decoy. \
+           scorepsmstol: fittable sets of 30..70 PSMs under precursor tolerances ppm (-10,10) (-50,50) (-5,20) (-500,500) (-1,1) and da (-0.005,0.005) (-0.5,0.5) (-500,100) (-3.5,1.5) (-0.25,0.75); fdrrun decoy searches repeated under a random one of da (-0.5,0.5) / (-0.005,0.005) / (-500,100), ppm (-5,50). \
            scorepsms: 1..80 (quick) / 400 PSM feature records with realistic ranges (finite poisson <= 0), large and small sets, \
            constant charge/rank columns, ion mobility present or all zero, two decoys only; a default-on family `nonfinite-feature-guarded` (fittable sets of 40..70 records in which 1..3 records carry poisson in {-inf,+inf,NaN,2.5,1.0} or \
            delta_rt_model / delta_ims_model in {+inf,-inf,negative,>1}: the guards of the feature transform must replace them, fit expected); variants that must fall back: one class empty, \
@@ -186,6 +187,33 @@ const FALLBACK_EXPR: &str =
     "feat.discriminant_score = (-feat.poisson as f32).ln_1p() + feat.longest_y_pct / 3.0";
 
 fn exec_scorepsms(t: &mut Toks) -> Option<String> {
+    exec_scorepsms_tol(t, Tolerance::Ppm(-10.0, 10.0)).map(|(_, r)| r)
+}
+
+/// bin count and bandwidth factor of the mass-error KDE, as the UNCHANGED score_psms computes them from the
+/// precursor tolerance (restated here for the data handed to the model; the Lean model has its own copy,
+/// `massModelBins`, and the two are compared)
+fn mass_model_params(tol: Tolerance) -> (f64, usize) {
+    let (bw, bin_size) = match tol {
+        Tolerance::Ppm(lo, hi) => (2.0f64, (hi - lo).max(100.0)),
+        Tolerance::Da(lo, hi) => (0.1f64, (hi - lo).max(1000.0)),
+        Tolerance::Pct(_, _) => (2.0f64, 100.0),
+    };
+    (bw, bin_size.ceil().abs() as usize)
+}
+
+/// `scorepsmstol kind(0 = ppm, 1 = da) lo:f32 hi:f32 n (21 fields)*n -> bins <scorepsms reply>`: score_psms under
+/// the given precursor tolerance. For a dalton tolerance the mass error is `expmass - calcmass`: the harness
+/// sets calcmass = 1000 and expmass = 1000 + 0.01 * delta_mass.
+fn exec_scorepsmstol(t: &mut Toks) -> Option<String> {
+    let kind = t.usize()?;
+    let lo = t.f32()?;
+    let hi = t.f32()?;
+    let tol = if kind == 0 { Tolerance::Ppm(lo, hi) } else { Tolerance::Da(lo, hi) };
+    exec_scorepsms_tol(t, tol).map(|(bins, r)| format!("{} {}", bins, r))
+}
+
+fn exec_scorepsms_tol(t: &mut Toks, tol: Tolerance) -> Option<(usize, String)> {
     let n = t.usize()?;
     if n > 100_000 {
         return None;
@@ -215,6 +243,10 @@ fn exec_scorepsms(t: &mut Toks) -> Option<String> {
         f.delta_rt_model = t.f32()?;
         f.delta_ims_model = t.f32()?;
         f.longest_y_pct = t.f32()?;
+        if let Tolerance::Da(_, _) = tol {
+            f.calcmass = 1000.0;
+            f.expmass = 1000.0 + 0.01 * f.delta_mass;
+        }
         feats.push(f);
     }
     if !t.done() {
@@ -223,17 +255,24 @@ fn exec_scorepsms(t: &mut Toks) -> Option<String> {
     // tie to the source text of the fallback (Runner::spectrum_fdr is private to a binary crate)
     let squeezed: String = RUNNER_SRC.split_whitespace().collect::<Vec<_>>().join(" ");
     if !squeezed.contains(FALLBACK_EXPR) || !squeezed.contains("score_psms(features, self.parameters.precursor_tol) .is_none()") {
-        return Some("err:fallback_source_changed".into());
+        return Some((0, "err:fallback_source_changed".into()));
     }
     // values of the transcendental / KDE parts of the feature transform, handed to the model as DATA
     // (computed here through the same public functions score_psms uses, with the arguments it uses
     // for a Ppm(-10, 10) tolerance: bw_adjust = 2x, bins = max(hi - lo, 100) = 100, not monotonic)
     let decoys: Vec<bool> = feats.iter().map(|f| f.label == -1).collect();
-    let dm: Vec<f64> = feats.iter().map(|f| f.delta_mass as f64).collect();
+    let dm: Vec<f64> = feats
+        .iter()
+        .map(|f| match tol {
+            Tolerance::Da(_, _) => (f.expmass - f.calcmass) as f64,
+            _ => f.delta_mass as f64,
+        })
+        .collect();
+    let (bw, bins) = mass_model_params(tol);
     let est = sage_core::ml::kde::Builder::default()
         .monotonic(false)
-        .bw_adjust(|x| x * 2.0)
-        .bins(100)
+        .bw_adjust(move |x| x * bw)
+        .bins(bins)
         .build(&dm, &decoys);
     let aux: Vec<[f64; 9]> = feats
         .iter()
@@ -252,7 +291,7 @@ fn exec_scorepsms(t: &mut Toks) -> Option<String> {
             ]
         })
         .collect();
-    let fitted = score_psms(&mut feats, Tolerance::Ppm(-10.0, 10.0)).is_some();
+    let fitted = score_psms(&mut feats, tol).is_some();
     if !fitted {
         for feat in feats.iter_mut() {
             feat.discriminant_score = (-feat.poisson as f32).ln_1p() + feat.longest_y_pct / 3.0;
@@ -267,7 +306,7 @@ fn exec_scorepsms(t: &mut Toks) -> Option<String> {
             put64(&mut o, v);
         }
     }
-    Some(o.finish())
+    Some((bins, o.finish()))
 }
 
 struct TmpDir(std::path::PathBuf);
@@ -294,6 +333,15 @@ fn exec_fdrrun(t: &mut Toks) -> Option<String> {
     let predict_rt = t.bool()?;
     let fasta = t.string()?;
     let mgf = t.string()?;
+    // optional precursor tolerance: kind(0 = ppm, 1 = da) lo:f32 hi:f32 (default ppm -20..20)
+    let precursor_tol = match t.usize() {
+        None => Tolerance::Ppm(-20.0, 20.0),
+        Some(kind) => {
+            let lo = t.f32()?;
+            let hi = t.f32()?;
+            if kind == 0 { Tolerance::Ppm(lo, hi) } else { Tolerance::Da(lo, hi) }
+        }
+    };
     if !t.done() {
         return None;
     }
@@ -311,7 +359,7 @@ fn exec_fdrrun(t: &mut Toks) -> Option<String> {
         version: "verif".into(),
         database: db,
         quant: Default::default(),
-        precursor_tol: Tolerance::Ppm(-20.0, 20.0),
+        precursor_tol,
         fragment_tol: Tolerance::Ppm(-10.0, 10.0),
         precursor_charge: (2, 4),
         override_precursor_charge: false,
@@ -460,6 +508,7 @@ pub fn exec(op: &str, t: &mut Toks) -> Option<String> {
         "ldabig" => exec_ldabig(t),
         "scorepsmst" => exec_scorepsmst(t),
         "fdrrun" => exec_fdrrun(t),
+        "scorepsmstol" => exec_scorepsmstol(t),
         _ => None,
     }
 }
@@ -996,6 +1045,7 @@ fn gen_psms(rng: &mut Rng, tier: Tier, emit: &mut dyn FnMut(Case)) {
     let reps = if quick { 25 } else { 400 };
     let nmax = if quick { 80 } else { 400 };
     let mut guarded_budget = if quick { 4 } else { 60 };
+    let mut tol_budget = if quick { 1 } else { 30 };
     for _ in 0..reps {
         let n = 4 + rng.below(nmax - 3);
         let with_ims = rng.chance(1, 3);
@@ -1060,6 +1110,27 @@ fn gen_psms(rng: &mut Rng, tier: Tier, emit: &mut dyn FnMut(Case)) {
                     .tag_if(variant <= 4 || variant == 12, "guarded-poisson")
                     .tag_if((5..=8).contains(&variant) || variant == 12, "guarded-delta-rt")
                     .tag_if((9..=11).contains(&variant), "guarded-delta-ims"));
+            }
+        }
+        // precursor tolerance varied (op scorepsmstol): the bin count / bandwidth factor of the mass-error KDE
+        // depend on it (ppm: max(hi-lo, 100) bins, 2x; da: max(hi-lo, 1000) bins, 0.1x); fittable sets
+        if tol_budget > 0 {
+            tol_budget -= 1;
+            let tols: [(usize, f32, f32); 10] = [
+                (0, -10.0, 10.0), (0, -50.0, 50.0), (0, -5.0, 20.0), (0, -500.0, 500.0), (0, -1.0, 1.0),
+                (1, -0.005, 0.005), (1, -0.5, 0.5), (1, -500.0, 100.0), (1, -3.5, 1.5), (1, -0.25, 0.75),
+            ];
+            for &(kind, lo, hi) in &tols {
+                let n = 30 + rng.below(40);
+                let mut set: Vec<Psm> = (0..n).map(|i| draw_psm(rng, i % 3 == 0, with_ims)).collect();
+                rng.shuffle(&mut set);
+                let mut o = Out::new();
+                o.raw("scorepsmstol").n(kind).f32(lo).f32(hi);
+                let req = format!("{} {}", o.finish(), req_psms(&set).strip_prefix("scorepsms ").unwrap());
+                emit(Case::new(req)
+                    .tag("scorepsmstol")
+                    .tag("tolerance-varied")
+                    .tag(if kind == 0 { "ppm-tolerance" } else if hi - lo <= 1.0 { "da-tolerance-narrow" } else { "da-tolerance" }));
             }
         }
         // two decoys among targets
@@ -1377,6 +1448,13 @@ fn gen_fdrrun_decoys(rng: &mut Rng, tier: Tier, emit: &mut dyn FnMut(Case)) {
             scan += 1;
         }
         let mgf: String = blocks.concat();
+        // the same search under other precursor tolerances (narrow and wide dalton windows, asymmetric ppm)
+        let (tk, tlo, thi) = *rng.pick(&[(1usize, -0.5f32, 0.5f32), (1, -0.005, 0.005), (1, -500.0, 100.0), (0, -5.0, 50.0)]);
+        {
+            let mut o = Out::new();
+            o.raw(&req_fdrrun(true, rep % 2 == 0, &fasta, &mgf)).n(tk).f32(tlo).f32(thi);
+            emit(Case::new(o.finish()).tag("fdrrun").tag("with-decoys").tag("tolerance-varied"));
+        }
         for predict_rt in [true, false] {
             emit(Case::new(req_fdrrun(true, predict_rt, &fasta, &mgf))
                 .tag("fdrrun")
